@@ -2,6 +2,7 @@
   Kanal.Lemmas.Counts — the handle counts and the live-handle ledger (CountInv of DESIGN §3.4).
 -/
 import Kanal.Lemmas.Frame
+import Kanal.Lemmas.Reach
 
 namespace Kanal
 open Chan State
@@ -73,5 +74,35 @@ theorem step_quiet {v s l p} (hl : Label.isPlain l = true) (e : step v s l = som
   all_goals step_leaves e
   all_goals simp [Quiet, Same, pushWaiter]
   all_goals grind [sendPre_same', cancel_same', drainCS_same', sendStep_quiet', recvStep_quiet']
+
+/-- Counters = ledger while open; both zero once closed. -/
+def CountInv (s : State) : Prop :=
+  (s.closedOnce = false → s.chan.sendCount = s.liveS ∧ s.chan.recvCount = s.liveR) ∧
+  (s.closedOnce = true → s.chan.sendCount = 0 ∧ s.chan.recvCount = 0)
+
+theorem countInv_init (cap) : CountInv (State.init cap) := by
+  simp [CountInv, State.init, Chan.new]
+
+theorem countInv_step {v s l p} (h : CountInv s) (e : step v s l = some p) : CountInv p.1 := by
+  by_cases hl : Label.isPlain l = true
+  · obtain ⟨⟨-, h2, h3⟩, h4, h5, h6⟩ := step_quiet hl e
+    unfold CountInv at *
+    rw [h2, h3, h4, h5, h6]; exact h
+  · cases l <;> simp [Label.isPlain] at hl <;> simp only [step] at e
+    case clone side =>
+      cases side <;> simp only at e <;> step_leaves e <;> simp [CountInv, cloneCS] at * <;> grind
+    case dropHandle side =>
+      cases side <;> simp only at e <;> step_leaves e <;>
+        simp [CountInv, dropCS, terminateAll] at * <;> grind
+    case close =>
+      step_leaves e
+      · exact h
+      · rename_i heq
+        unfold closeCS at heq
+        split at heq <;> cases heq
+        simp [CountInv] at *
+
+theorem countInv_reach (v : Variant) (s : State) (h : Reach v s) : CountInv s :=
+  Reach.induct countInv_init (fun _ _ _ _ ih e => countInv_step ih e) s h
 
 end Kanal
